@@ -1252,7 +1252,21 @@ where
                                 }
                             }
                         }
-                        Ok(ClassStringDisjunction(ClassSetAlternativeStrings(alternatives)))
+                        // A one-character string is the same member as the character itself
+                        // (so it takes part in negation and in the set operations as a code point).
+                        let mut class = ClassSet::new();
+                        for alternative in alternatives {
+                            if alternative.len() == 1 {
+                                class.codepoints.add_one(alternative[0]);
+                            } else {
+                                class.alternatives.0.push(alternative);
+                            }
+                        }
+                        if class.codepoints.is_empty() {
+                            Ok(ClassStringDisjunction(class.alternatives))
+                        } else {
+                            Ok(Class(class))
+                        }
                     }
                     // CharacterClassEscape :: d
                     0x64 /* d */ => {
